@@ -69,6 +69,11 @@ class MutationAnalysis:
                     and n.value.id == name:
                 kind = 'dict'
                 break
+            elif isinstance(n, ast.Call) and kind == 'unknown' and any(isinstance(a, ast.Name) and a.id == name
+                                                                       for a in n.args):
+                d = self.P.resolve(fi.module, n.func, fi) or ''
+                if d.startswith('numpy.') or d.startswith('scipy.'):
+                    kind = 'array'          # handed to a numpy / scipy routine as data
             elif isinstance(n, ast.Subscript) and isinstance(n.value, ast.Name) and n.value.id == name:
                 if isinstance(n.slice, ast.Constant) and isinstance(n.slice.value, str):
                     kind = 'dict'
